@@ -164,6 +164,16 @@ CLAIMED = {
         "Trusted: the recording client; S3CsvUtil.put's '.csv' suffix rule; parameters free of whitespace.",
         "DESIGN.md section 5 C18",
     ),
+    "C13": (
+        "Lean 4 theorem about the loop nest of get_estimates with the alpha-keyed cache of the gaussian model (induction over estimands; reads / writes as a trace) + pair runs (full request vs sub-requests / permutations) compared bit-for-bit",
+        "cell_independent proves that in the loop nest every aggregate-interval read of the cell (estimand, level, alpha) sees the unit bounds "
+        "written for the same estimand, for every list of estimands, levels and alphas and every initial cache content; cells_computed that "
+        "every requested cell is computed. The write / read trace of the real GaussianElectionModel is recorded and compared with the model's; "
+        "full requests are run against sub-requests and permutations (3 estimators, district elections included) and every common cell must be "
+        "bit-identical, with stable key / category columns.",
+        "Trusted: the numerical core is an oracle; bit-identity on one machine.",
+        "DESIGN.md section 5 C13",
+    ),
 }
 
 PENDING_REASON = "check not built yet in this session (model and correspondence in progress); not claimed until it is"
